@@ -247,4 +247,58 @@ CHECKS["C16"] = dict(
          "only - this is an exhaustive bounded enumeration and is labelled so (DESIGN.md named C16 as the first candidate for "
          "not_applicable; it is kept because the harness turned out free of false alarms). 1- and 2-argument handlers only where the "
          "legacy API documents them as compatible.")
+# ---- additions made while strengthening against the second round of seeded changes (DESIGN.md 9.5) ----
+ADDED = {
+    "C01": " Added: dynamic Range (bounds / default named by other traits) histories (k=3 quick, 4 thorough) in which every assigned value, "
+           "bound and default is an unbounded z3 Int and the real _get/_set/_validate/_set_value run natively on the proxies, against a "
+           "reference model of the documented behaviour; a mapped compound configuration (Trait(default, mapping, List(Int))).",
+    "C02": " Added: Float trait histories (an exact float is stored as the object assigned; re-assigning it - NaN included - is no change); "
+           "failing quiet updates (trait_setq / trait_set(trait_change_notify=False) run natively) must not leave notifications off; "
+           "observe's default exception handler with values whose repr raises.",
+    "C03": " Added: the float Range descriptor is now produced by the REAL Range constructor run on symbolic bounds; Map is built by the real "
+           "constructor and its defining mapping may change afterwards; compounds with several tuple alternatives; definitions derived by "
+           "calling a trait type with other metadata (clone).",
+    "C04": " Added: whole-value assignment from 8 kinds of source object (self, copy, deepcopy, pickle, another owner, a lax owner holding "
+           "invalid items, an inner container of a nested trait, a plain container), with an invalid item smuggled into detached copies "
+           "through the built-in base class; type-based invalid items that EQUAL a member for Set traits.",
+    "C05": " Added: the same one-step obligations on an owner-backed TraitListObject (List trait value) with the legacy items handler and two "
+           "observe handlers attached: every observe handler receives exactly one event per change notification with the same (index, "
+           "removed, added), a delivered event is not modified afterwards; items are equal-but-distinct twins; falsy owner.",
+    "C06": " Added: the same obligations on an owner-backed TraitDictObject with 1 legacy + 2 observe handlers (mirror obligations: same delta, "
+           "delivered events not modified afterwards), falsy owner.",
+    "C07": " Added: type-based validity (a wrong-typed item that EQUALS a member) on bare and owner-backed sets; owner-backed TraitSetObject "
+           "with mirror obligations and falsy owner; copies of Set trait values (copy, deepcopy, owner pickled / cloned / copy_traits, "
+           "assignment of copies with a smuggled invalid member).",
+    "C08": " Added: links that admit objects lacking the observed trait (hook-up fails half way; what hangs below a failed object is "
+           "unspecified, everything detached must be silent), metadata-filtered links, reassignment of an EQUAL container, stale "
+           "containers, a constant default that is itself observable.",
+    "C09": " Added to the histories: multiplicity-changing list mutations, a graph mutation whose hook-up fails (the replaced object must be "
+           "detached), multi-expression registrations with duplicated patterns and a failing tail. Known finding: sibling maintainers are "
+           "skipped after a failed hook-up.",
+    "C10": " Added: Union-of-Set / Dict / nested Union and user-defined TraitType default kinds; reset obligations (del / reset_traits with "
+           "handlers attached: the default handed to handlers is the object later reads return, computed once per reset).",
+    "C11": " Added: two-level chains over every pair of prefix styles, subclass variants (declarations inherited / redefined), assignment of "
+           "the target's current value, a decoy attribute of the delegate.",
+    "C12": " Added: a dict-of-instances dependency, a dependency on a never-assigned constant default object, whole-container hook-up with "
+           "repeated items (initially, by assignment, after unpickling / cloning), 22 operations.",
+    "C13": " Added: wildcards added after class creation (P8), remove_trait post-conditions, invalid writes for typed traits and typed Events "
+           "with and without listeners. The attribute name is bounded to 16 characters.",
+    "C14": " Added: definitions with non-default comparison modes, pickle protocols 0 and 1, never-written write-once attributes, aliasing "
+           "through a Set(Instance) trait.",
+    "C15": " Added to the concrete witness checks: compile_str, the list form of an expression and HasTraits.observe agree with parse() on "
+           "rejection; compiling is pure (list-form use does not change what a string alone denotes); registration by text and removal by "
+           "an equivalent spelling through HasTraits.observe.",
+    "C16": " Added: value-equal 'twin' objects (value-based __eq__, identity hash) and a failing sibling registration under the same name.",
+    "C17": " Added: the adapting trait in 10 positions (stand-alone, compound, Union, List/Dict/Set/Tuple member, class given by name), falsy "
+           "adapters, a protocol whose class NAME equals another protocol's in a different module.",
+    "C18": " Added under ghost counts: dynamic defaults that fail validation (incl. traits storing the original value), look-up through a "
+           "delegation cycle (recursion-limit exit), trait_property_changed with a raising handler; property get/set/delete of every arity.",
+    "C19": " Added scenarios: a failing adapter factory (stand-alone, in a compound, in a Union), the library's default notification exception "
+           "handler with RuntimeError-family exceptions whose first argument is not a string.",
+    "C20": " Added: NaN and array-like values (identity of the objects on both sides, no raise), a link removed or moved to another partner by "
+           "an earlier handler of the change being dispatched.",
+}
+for _k, _v in ADDED.items():
+    if _k in CHECKS:
+        CHECKS[_k]["text"] = CHECKS[_k]["text"] + _v
 NOT_APPLICABLE = {p: NOT_BUILT for p in ["C%02d" % i for i in range(1, 21)]}
